@@ -3,7 +3,7 @@
    against SimpleITK on every run; gen_* are regenerated from core/grid.py. *)
 From Coq Require Import ZArith List.
 From DV Require Import Base.Field Base.LinAlg Base.QcInst Model.Enums Model.Homog Model.Grid Model.ItkSpec
-  Gen.GridT Gen.GridCtor Proofs.C02Itk.
+  Gen.GridT Gen.GridCtor Gen.SitkGrid Proofs.C02Itk Proofs.C02SitkGrid.
 Import ListNotations.
 Local Open Scope fld_scope.
 
@@ -69,6 +69,35 @@ Theorem C02_header_direction_roundtrip :
   length v = (rows * D)%nat -> flatten (unflatten D rows v) = v.
 Proof. exact flatten_unflatten. Qed.
 Print Assumptions C02_header_direction_roundtrip.
+
+(* 6. the SimpleITK-side grid attributes (utils/simpleitk/grid.py: GridAttrs.transform / inverse_transform)
+      use the same convention in both directions: index -> physical = ITK's map, physical -> continuous index
+      (before its 12-decimal rounding) = ITK's inverse map S^-1 R^T (p - o), which inverts the former *)
+Theorem C02_sitk_grid_attrs_forward :
+  forall (K : fld), is_field K ->
+  forall (D : nat), D = 2%nat \/ D = 3%nat ->
+  forall (s o : nat -> K) (d : nat -> nat -> K) (X : list K), length X = D ->
+  (forall i, (i < D)%nat -> s i <> 0) ->
+  gen_attrs_i2p D (vtab D s) (vtab D o) (tab D D d) X = itk_phys (vtab D o) (vtab D s) (tab D D d) X.
+Proof. exact attrs_index_to_physical_is_itk. Qed.
+Print Assumptions C02_sitk_grid_attrs_forward.
+
+Theorem C02_sitk_grid_attrs_inverse :
+  forall (K : fld), is_field K ->
+  forall (D : nat), D = 2%nat \/ D = 3%nat ->
+  forall (s o : nat -> K) (d : nat -> nat -> K) (P : list K), length P = D ->
+  (forall i, (i < D)%nat -> s i <> 0) ->
+  gen_attrs_p2i D (vtab D s) (vtab D o) (tab D D d) P = itk_index D (vtab D o) (vtab D s) (tab D D d) P.
+Proof. exact attrs_physical_to_index_is_itk. Qed.
+Print Assumptions C02_sitk_grid_attrs_inverse.
+
+Theorem C02_itk_index_inverts_itk_phys :
+  forall (K : fld), is_field K ->
+  forall (D : nat) (s o : nat -> K) (d : nat -> nat -> K) (X : list K),
+  D = 2%nat \/ D = 3%nat -> (forall i, (i < D)%nat -> s i <> 0) -> orthonormal D (tab D D d) -> length X = D ->
+  itk_index D (vtab D o) (vtab D s) (tab D D d) (itk_phys (vtab D o) (vtab D s) (tab D D d) X) = X.
+Proof. exact itk_index_inverts_phys. Qed.
+Print Assumptions C02_itk_index_inverts_itk_phys.
 
 Example C02_nonvacuous :
   let n : nat -> QcF := fun i => nth i [q 5 1; q 7 1; q 4 1] (q 1 1) in
